@@ -318,6 +318,18 @@ func (s *Service) Stop(clearFutures bool) bool {
 	if clearFutures {
 		s.futureStore.Protect(false)
 		s.futureStore.Clear()
+
+		// also cancel the futures of commands that are still queued
+		for {
+			select {
+			case cmd := <-s.commandQueue:
+				cmd.future.Cancel(nil)
+				continue
+			default:
+			}
+
+			break
+		}
 	}
 
 	return true
